@@ -101,3 +101,22 @@ Proof.
   induction 1 as [|n x env st n1 y env1 st1 n2 z env2 st2 Hs Hrest IH]; [reflexivity|].
   rewrite (tail_step_same_depth _ _ _ _ _ _ _ _ _ Hs). exact IH.
 Qed.
+
+(** ---- C01: order of evaluation, stated on the transcription ---- *)
+(** the elements of a call form — callee first, then the arguments — are evaluated once each, left
+    to right, each in the state the previous one left *)
+Lemma eval_list_left_to_right ev d x xs env st :
+  eval_list ev d (x :: xs) env st =
+  prop (ev (S d) x env st) (fun v st1 => prop (eval_list ev d xs env st1) (fun vs st2 => (Ok (v :: vs), st2))).
+Proof.
+  cbn [eval_list]. rewrite bindM_prop. destruct (ev (S d) x env st) as [[v| | |] st1]; cbn [prop]; auto.
+Qed.
+
+(** let binds sequentially: each value is computed in the let scope where the earlier names are
+    already bound, then bound there itself *)
+Lemma let_binds_sequential ev d let_env a1 name p e r st :
+  let_binds ev d let_env a1 (VSym name p :: e :: r) st =
+  prop (ev (S d) e let_env st) (fun v st1 => prop (env_set let_env name v st1) (fun _ st2 => let_binds ev d let_env a1 r st2)).
+Proof.
+  cbn [let_binds]. rewrite bindM_prop. destruct (ev (S d) e let_env st) as [[v| | |] st1]; cbn [prop]; auto.
+Qed.
